@@ -23,12 +23,15 @@ EXTENDS Naturals, Sequences, FiniteSets, TLC, Json
 CONSTANT Tier   \* "quick" | "thorough"
 
 MaxN    == IF Tier = "quick" THEN 3 ELSE 4
-Letters == 1..(MaxN + 1) \cup (IF Tier = "quick" THEN {} ELSE {26})   \* a.. one past the last possible choice, and z
+\* a .. one past the last possible choice; thorough: also z, in one form (the
+\* form does not take part in the comparison)
+LettersOf(f) == 1..(MaxN + 1) \cup (IF Tier # "quick" /\ f = "evyq_text" THEN {26} ELSE {})
+Letters == 1..(MaxN + 1) \cup {26}
 Outputs == 0..2
 Forms   == IF Tier = "quick" THEN {"evyq_text", "textq_evy", "svg"}
            ELSE {"evyq_text", "evyq_inline", "textq_evy", "link", "svg"}
 
-Marks(a) == {s \in SUBSET Letters : s # {} /\ (a = "single-choice" => Cardinality(s) = 1)}
+Marks(a, f) == {s \in SUBSET LettersOf(f) : s # {} /\ (a = "single-choice" => Cardinality(s) = 1)}
 Question(f, a, n, o, m) == [form |-> f, atype |-> a, n |-> n, out |-> o, marked |-> m]
 
 VARIABLES pc, q, marked, matching, verdict
@@ -36,7 +39,7 @@ vars == <<pc, q, marked, matching, verdict>>
 
 \* every cell: form x answer type x number of choices x assignment of outputs x marked set
 Init == /\ \E n \in 2..MaxN : \E a \in {"single-choice", "multiple-choice"} : \E f \in Forms :
-             \E o \in [1..n -> Outputs] : \E m \in Marks(a) : q = Question(f, a, n, o, m)
+             \E o \in [1..n -> Outputs] : \E m \in Marks(a, f) : q = Question(f, a, n, o, m)
         /\ pc = "read" /\ marked = {} /\ matching = {} /\ verdict = "none"
 
 ReadAnswer == /\ pc = "read" /\ marked' = q.marked /\ pc' = "run"
